@@ -30,7 +30,7 @@ CLASSES = {
     "concurrent-requests-interleave": dict(
         site="concurrent-request-on-pending-change",
         kinds={"success-but-unpublished", "unpublished-version-after-sweep", "version-gap", "abandoned-key-published",
-               "abandoned-but-published"}),
+               "abandoned-but-published", "retry-fails"}),
 }
 
 
@@ -374,7 +374,10 @@ def run(prop, tier, seed, replay=None):
         if r.get("error"):
             nerr += 1
             rep.inconclusive.append("script %s: %s" % (r["id"], r["error"]))
-    if nerr == 0:
+    if nerr <= max(2, len(results) // 500):
+        # a few scripts lost to the harness (e.g. a scheduler wait exceeded on an overloaded machine) do not decide the run
+        for x in rep.inconclusive[:3]:
+            rep.notes.append("NOTE: " + x[:300])
         rep.inconclusive = []
     counts = judge(rep, prop, results, by_id, subjects)
 
